@@ -1,6 +1,6 @@
 (* C15 - Publish never blocks and every undelivered message is accounted for.
    Property theorems only.  Model: Model/Pub.v (after fix F11: the callbacks are invoked). *)
-From Coq Require Import List Arith Bool Lia ZArith.
+From Coq Require Import List Arith Bool Lia ZArith Permutation.
 From TC.Model Require Import Pub.
 From TC.Proofs Require Import PubInv PubC06 PubC15.
 Import ListNotations.
@@ -93,6 +93,15 @@ Section C15.
     - apply deadlines_pass; auto.
     - apply no_leak; auto.
   Qed.
+  (* Option order: Subscribe applies its options in the order given; options of different kinds touch
+     different fields, so any two orders of the same options (at most one of each kind) give the same effective
+     subscriber - in particular OnTimeout(cb) before or after WithTimeout(d) both keep the callback and the
+     timeout, which is the configuration all theorems above are stated for. *)
+  Theorem C15_option_order (l1 l2 : list (sopt M)) cap :
+    Permutation l1 l2 -> NoDup (map okind l1) -> SubscribeOpts cap l1 = SubscribeOpts cap l2.
+  Proof.
+    intros P N. unfold SubscribeOpts, apply_opts. rewrite (opts_perm l1 l2 P N). reflexivity.
+  Qed.
 End C15.
 
 (* ---------- non-vacuity ---------- *)
@@ -135,3 +144,4 @@ Print Assumptions C15_buffer_keeps.
 Print Assumptions C15_callbacks.
 Print Assumptions C15_own_timeout.
 Print Assumptions C15_no_leak.
+Print Assumptions C15_option_order.
